@@ -333,6 +333,20 @@ K2a:
         call SinkAct(to.s, ch);
       };
     };
+K2b:
+    \* overlapping subscriptions: from inside its Terminate/Error handler (the "repeat on complete" idiom)
+    \* a sink may make ANOTHER sink act; it does not use its own talkback any more
+    if (CFG.cross /\ IsEnd(m) /\ ~CFG.passive
+        /\ {c \in SinkOpts(to.s, FALSE) : \E j \in 1..NSinks : \E a2 \in {"attach", "pull", "term"} : c = "x " \o a2 \o " " \o KName(j)} # {}) {
+      with (c \in {"none"} \cup {c2 \in SinkOpts(to.s, FALSE) : \E j \in 1..NSinks : \E a2 \in {"attach", "pull", "term"} : c2 = "x " \o a2 \o " " \o KName(j)}) {
+        script := LogS(script, <<"sink", KName(to.s), c>>);
+        ch := c;
+      };
+K2c:
+      if (ch # "none") {
+        call SinkAct(to.s, ch);
+      };
+    };
 K3:
     sk[to.s].busy := sk[to.s].busy - 1;
     goto Ret;
@@ -3346,7 +3360,7 @@ DDisp(self) == /\ pc[self] = "DDisp"
                                                                                                                                                                                                                                      sx, 
                                                                                                                                                                                                                                      ch >>
                                                                                                                                                                                                      ELSE /\ Assert(FALSE, 
-                                                                                                                                                                                                                    "Failure of assertion at line 1205, column 5.")
+                                                                                                                                                                                                                    "Failure of assertion at line 1219, column 5.")
                                                                                                                                                                                                           /\ pc' = [pc EXCEPT ![self] = "Ret"]
                                                                                                                                                                                                           /\ UNCHANGED << st, 
                                                                                                                                                                                                                           tasks, 
@@ -3390,7 +3404,7 @@ K1a(self) == /\ pc[self] = "K1a"
                              /\ script' = LogS(script, <<"sink", KName(to[self].s), c>>)
                              /\ ch' = [ch EXCEPT ![self] = c]
                         /\ pc' = [pc EXCEPT ![self] = "K2"]
-                   ELSE /\ pc' = [pc EXCEPT ![self] = "K3"]
+                   ELSE /\ pc' = [pc EXCEPT ![self] = "K2b"]
                         /\ UNCHANGED << script, ch >>
              /\ UNCHANGED << ci, st, nd, sk, pi, fi, tasks, now, obs, ntop, 
                              panicked, started, mon, done, stack, fr, to, m, 
@@ -3418,6 +3432,37 @@ K2a(self) == /\ pc[self] = "K2a"
                                                          ca        |->  ca[self] ] >>
                                                      \o stack[self]]
              /\ pc' = [pc EXCEPT ![self] = "SA0"]
+             /\ UNCHANGED << ci, st, nd, sk, pi, fi, tasks, now, obs, script, 
+                             ntop, panicked, started, mon, done, fr, to, m, lg, 
+                             sx, jx, ch, lv, snap, gx, ex, nx, fx, bx, bc, tx, 
+                             ta, tc, ft, act, sj, tk >>
+
+K2b(self) == /\ pc[self] = "K2b"
+             /\ IF CFG.cross /\ IsEnd(m[self]) /\ ~CFG.passive
+                   /\ {c \in SinkOpts(to[self].s, FALSE) : \E j \in 1..NSinks : \E a2 \in {"attach", "pull", "term"} : c = "x " \o a2 \o " " \o KName(j)} # {}
+                   THEN /\ \E c \in {"none"} \cup {c2 \in SinkOpts(to[self].s, FALSE) : \E j \in 1..NSinks : \E a2 \in {"attach", "pull", "term"} : c2 = "x " \o a2 \o " " \o KName(j)}:
+                             /\ script' = LogS(script, <<"sink", KName(to[self].s), c>>)
+                             /\ ch' = [ch EXCEPT ![self] = c]
+                        /\ pc' = [pc EXCEPT ![self] = "K2c"]
+                   ELSE /\ pc' = [pc EXCEPT ![self] = "K3"]
+                        /\ UNCHANGED << script, ch >>
+             /\ UNCHANGED << ci, st, nd, sk, pi, fi, tasks, now, obs, ntop, 
+                             panicked, started, mon, done, stack, fr, to, m, 
+                             lg, sx, jx, lv, snap, ka, ca, gx, ex, nx, fx, bx, 
+                             bc, tx, ta, tc, ft, act, sj, tk >>
+
+K2c(self) == /\ pc[self] = "K2c"
+             /\ IF ch[self] # "none"
+                   THEN /\ /\ ca' = [ca EXCEPT ![self] = ch[self]]
+                           /\ ka' = [ka EXCEPT ![self] = to[self].s]
+                           /\ stack' = [stack EXCEPT ![self] = << [ procedure |->  "SinkAct",
+                                                                    pc        |->  "K3",
+                                                                    ka        |->  ka[self],
+                                                                    ca        |->  ca[self] ] >>
+                                                                \o stack[self]]
+                        /\ pc' = [pc EXCEPT ![self] = "SA0"]
+                   ELSE /\ pc' = [pc EXCEPT ![self] = "K3"]
+                        /\ UNCHANGED << stack, ka, ca >>
              /\ UNCHANGED << ci, st, nd, sk, pi, fi, tasks, now, obs, script, 
                              ntop, panicked, started, mon, done, fr, to, m, lg, 
                              sx, jx, ch, lv, snap, gx, ex, nx, fx, bx, bc, tx, 
@@ -6108,21 +6153,21 @@ Halt(self) == /\ pc[self] = "Halt"
                               nx, fx, bx, bc, tx, ta, tc, ft, act, sj, tk >>
 
 Deliver(self) == DStart(self) \/ DDisp(self) \/ K1(self) \/ K1a(self)
-                    \/ K2(self) \/ K2a(self) \/ K3(self) \/ P1(self)
-                    \/ P2(self) \/ P3(self) \/ T1(self) \/ T1a(self)
-                    \/ T2(self) \/ FE1(self) \/ FE2(self) \/ FE3(self)
-                    \/ FE4(self) \/ FR1(self) \/ FR2(self) \/ FR3(self)
-                    \/ FR4(self) \/ FR5(self) \/ FR6(self) \/ FR7(self)
-                    \/ FR8(self) \/ FR9(self) \/ MP1(self) \/ MP2(self)
-                    \/ MP3(self) \/ MP4(self) \/ MP5(self) \/ MP6(self)
-                    \/ MP7(self) \/ MP8(self) \/ FI1(self) \/ FI2(self)
-                    \/ FI3(self) \/ FI4(self) \/ FI5(self) \/ FI6(self)
-                    \/ FI7(self) \/ FI8(self) \/ SC1(self) \/ SC2(self)
-                    \/ SC3(self) \/ SC4(self) \/ SC5(self) \/ SC6(self)
-                    \/ SC7(self) \/ SC8(self) \/ TK1(self) \/ TK2(self)
-                    \/ TK3(self) \/ TK4(self) \/ tk_taken_fu(self)
-                    \/ tk_data(self) \/ tk_max(self) \/ tk_end_ld(self)
-                    \/ tk_end_st(self) \/ tk_up_ld(self)
+                    \/ K2(self) \/ K2a(self) \/ K2b(self) \/ K2c(self)
+                    \/ K3(self) \/ P1(self) \/ P2(self) \/ P3(self)
+                    \/ T1(self) \/ T1a(self) \/ T2(self) \/ FE1(self)
+                    \/ FE2(self) \/ FE3(self) \/ FE4(self) \/ FR1(self)
+                    \/ FR2(self) \/ FR3(self) \/ FR4(self) \/ FR5(self)
+                    \/ FR6(self) \/ FR7(self) \/ FR8(self) \/ FR9(self)
+                    \/ MP1(self) \/ MP2(self) \/ MP3(self) \/ MP4(self)
+                    \/ MP5(self) \/ MP6(self) \/ MP7(self) \/ MP8(self)
+                    \/ FI1(self) \/ FI2(self) \/ FI3(self) \/ FI4(self)
+                    \/ FI5(self) \/ FI6(self) \/ FI7(self) \/ FI8(self)
+                    \/ SC1(self) \/ SC2(self) \/ SC3(self) \/ SC4(self)
+                    \/ SC5(self) \/ SC6(self) \/ SC7(self) \/ SC8(self)
+                    \/ TK1(self) \/ TK2(self) \/ TK3(self) \/ TK4(self)
+                    \/ tk_taken_fu(self) \/ tk_data(self) \/ tk_max(self)
+                    \/ tk_end_ld(self) \/ tk_end_st(self) \/ tk_up_ld(self)
                     \/ tk_up_term(self) \/ tk_sink_term(self) \/ TK5(self)
                     \/ tk_src_end_st(self) \/ TK6a(self) \/ TK6(self)
                     \/ TK7(self) \/ TK8(self) \/ TK9(self) \/ SK1(self)
